@@ -149,10 +149,10 @@ def set_owner_process(uid, gid, initgroups=False):
     if initgroups:
         os.initgroups(username, gid)
 
-    if gid and gid != os.getgid():
+    if gid != os.getgid() or gid != os.getegid():
         os.setgid(gid)
 
-    if uid and uid != os.getuid():
+    if uid != os.getuid() or uid != os.geteuid():
         os.setuid(uid)
 
 
